@@ -155,11 +155,15 @@ def guarded(ctx: Ctx, fn: typing.Callable, *args, **kwargs):
 
 
 def load_known() -> list[dict]:
-    path = os.path.join(VERIF, 'known_findings.json')
-    if not os.path.exists(path):
-        return []
-    with open(path, encoding='utf-8') as fd:
-        return json.load(fd)['findings']
+    """Committed known findings: known_findings.json plus (while checks are being authored) known_findings.d/*.json."""
+    import glob
+
+    found = []
+    for path in [os.path.join(VERIF, 'known_findings.json')] + sorted(glob.glob(os.path.join(VERIF, 'known_findings.d', '*.json'))):
+        if os.path.exists(path):
+            with open(path, encoding='utf-8') as fd:
+                found.extend(json.load(fd)['findings'])
+    return found
 
 
 def quiet_stderr() -> None:
